@@ -158,15 +158,14 @@ PROPS['C08'] = dict(
 )
 
 PROPS['C09'] = dict(
-    theorem='C09_table, C09_kmp_all, C09_occurrence_meaning, C09_find, C09_bad_digit (Properties/C09.v)',
+    theorem='C09_table, C09_kmp_all, C09_occurrence_meaning, C09_find, C09_backward_is_reverse, C09_bad_digit (Properties/C09.v)',
     functional=True,
     level_text='Complete KMP proof for every pattern and text: the failure table is the longest-proper-border function, the automaton state after any prefix is the longest '
                'pattern prefix that is a suffix of it, Visit reports exactly the positions where the pattern ends (overlaps included), no index leaves its slice and the '
                'fall-back loops terminate; every search entry point (FindFirst/FirstN/All/Last/LastN, Find/FindR pulls, Matches/BackwardMatches with early exit) equals the '
                'corresponding selection of the declarative occurrence list. Differential run over small-alphabet texts (borders, periods, overlaps), all windows and n, both '
                'directions, all three versions; the naive specification is also evaluated directly on every implementation answer.',
-    level_note='"Backward = forward reversed" is covered by running both against their declarative lists on the same inputs; the list identity occ_bwd = rev occ_fwd is not yet a '
-               'theorem. consume2 / itertools.Take / slices.Collect are modelled by firstn. Re-running a v3 iterator is compared inside the driver (a mismatch is observed as -777).',
+    level_note='Backward = reverse of forward is a theorem (occ_bwd = rev occ_fwd, FindBackward.v). consume2 / itertools.Take / slices.Collect are modelled by firstn. Re-running a v3 iterator is compared inside the driver (a mismatch is observed as -777).',
     rule='cases: texts of length 0..230 and repeating infinite ones over 2-3 symbol alphabets (shifted into the digit range), patterns from border/period shapes, slices of the text, '
          'with out-of-range values, as long as or longer than the text, empty; windows [ws, we) at block boundaries; n in {-1,0,1,2,3,5,50}; 11 entry points. Non-trivial: more than '
          'one match, empty pattern, backward, re-run.',
